@@ -30,9 +30,10 @@ type C01Op struct {
 }
 
 type C01Case struct {
-	Worlds []map[string]string `json:"worlds"` // per engine: ArrayLoader contents
-	Ctxs   []Ctx               `json:"ctxs"`
-	Ops    []C01Op             `json:"ops"`
+	DefaultPolicy []bool              `json:"default_policy,omitempty"` // per engine: DefaultSecurityPolicy instead of allow-all
+	Worlds        []map[string]string `json:"worlds"`                   // per engine: ArrayLoader contents
+	Ctxs          []Ctx               `json:"ctxs"`
+	Ops           []C01Op             `json:"ops"`
 }
 
 type c01Eng struct {
@@ -45,7 +46,7 @@ type c01Eng struct {
 
 type c01Stats struct {
 	checked, repeat, afterParse, afterFailure, afterGC, afterOther, pristineRuns int
-	nontrivial                                                                  bool
+	nontrivial                                                                   bool
 }
 
 var c01Extras = map[string]string{
@@ -56,6 +57,9 @@ var c01Extras = map[string]string{
 	"x_big":         "B[{% for i in [1,2,3] %}{{ i }}{% if i > 1 %}!{% endif %}{% endfor %}]" + strings.Repeat("0123456789abcdef", 300) + "{{ 'end' }}",
 	"x_inc_bad":     "{% include 'x_bad_syntax' %}",
 	"x_plain":       "just text",
+	"x_upper":       "{{ 'abc'|upper }}",
+	"x_sbx_inc":     "s[{% include 'x_plain' sandboxed %}|{% include 'x_upper' sandboxed %}|{% for i in [1,2] %}{% include 'x_upper' sandboxed %}{% endfor %}]",
+	"x_unlisted":    "{{ 'a-b'|replace('-', '+') }}{{ {'k': 1}|keys|join }}{{ [3,1]|merge([2])|join(',') }}",
 }
 
 func checkC01(c C01Case) error {
@@ -70,9 +74,18 @@ func runC01(c C01Case) (c01Stats, error) {
 	engs := make([]*c01Eng, len(c.Worlds))
 	for i, w := range c.Worlds {
 		spec := EngSpec{Templates: w, Sandbox: true}
+		if i < len(c.DefaultPolicy) && c.DefaultPolicy[i] {
+			spec = EngSpec{Templates: w, DefaultPol: true}
+		}
 		e, _ := buildEngine(spec)
 		engs[i] = &c01Eng{e: e, spec: spec, cacheOn: true, rendered: map[string]int{}}
 	}
+	type heldT struct {
+		t    *twig.Template
+		spec EngSpec
+		name string
+	}
+	var held []heldT
 	var last *C01Op
 	parsesSince, failuresSince, gcSince, otherSince := 0, 0, 0, 0
 	for i := range c.Ops {
@@ -114,6 +127,35 @@ func runC01(c C01Case) (c01Stats, error) {
 			en.spec.Debug = op.On
 			if !op.On {
 				twig.SetDebugLevel(twig.DebugOff)
+			}
+		case "hold":
+			// keep a handle obtained from Load; it is rendered later, whatever happened in between
+			if _, inLoader := en.spec.Templates[op.Name]; !inLoader {
+				continue
+			}
+			var tp *twig.Template
+			r := guard(func() (string, error) { t, err := en.e.Load(op.Name); tp = t; return "", err })
+			if !r.Failed() && tp != nil {
+				held = append(held, heldT{tp, en.spec, op.Name})
+			}
+		case "renderHeld":
+			if len(held) == 0 {
+				continue
+			}
+			h := held[op.N%len(held)]
+			ctxI := op.Ctx % len(c.Ctxs)
+			want, err := pristine(OneShot{Eng: h.spec, Call: "loadRender", Name: h.name, Ctx: c.Ctxs[ctxI]})
+			if err != nil {
+				return st, fmt.Errorf("harness: %v", err)
+			}
+			got := toOneShotRes(guard(func() (string, error) { return h.t.Render(zooCtx(c.Ctxs[ctxI], 0)) }))
+			st.checked++
+			st.nontrivial = true
+			if !got.Same(want) {
+				return st, fmt.Errorf("op %d: rendering the template handle obtained earlier from Load(%q) returned %v; a fresh engine in a fresh process returns %v\nsource: %s", i, h.name, got, want, q(trunc(h.spec.Templates[h.name])))
+			}
+			if got.Err {
+				failuresSince++
 			}
 		case "gc":
 			for k := 0; k < maxInt(1, op.N); k++ {
@@ -183,6 +225,7 @@ func genC01(t *rapid.T) C01Case {
 			srcs[k] = v
 		}
 		c.Worlds = append(c.Worlds, srcs)
+		c.DefaultPolicy = append(c.DefaultPolicy, rapid.IntRange(0, 2).Draw(t, "defaultpolicy") == 0)
 		c.Ctxs = append(c.Ctxs, sc.Ctx)
 		for _, s := range srcs {
 			allSources = append(allSources, s)
@@ -206,8 +249,17 @@ func genC01(t *rapid.T) C01Case {
 			if rapid.IntRange(0, 1).Draw(t, "ownctx") == 0 {
 				op.Ctx = eng
 			}
-		case k <= 10:
+		case k <= 9:
 			op.Op = "again"
+		case k <= 10:
+			if rapid.Bool().Draw(t, "holdOrRender") {
+				op.Op = "hold"
+				op.Name = rapid.SampledFrom(names).Draw(t, "holdname")
+			} else {
+				op.Op = "renderHeld"
+				op.N = rapid.IntRange(0, 7).Draw(t, "heldidx")
+				op.Ctx = eng
+			}
 		case k <= 13:
 			op.Op = "parse"
 			switch rapid.IntRange(0, 3).Draw(t, "parsekind") {
